@@ -166,3 +166,16 @@ more6("C15", "a forwarder fed from a reader kept in a struct field does not drop
 more6("C17", "ParseUtf16Var refuses nothing but a decoder error or a missing terminator (A-u.refuse) and returns only what the x/text decoder produced (A-u.source).")
 more6("C18", "A-u.refuse / A-u.source for descriptions; the decoder's verdict on a load option is final (F15.final).")
 more6("C19", "a decoded value shares no memory with its input (G9.copy).")
+
+def more7(i, extra):
+    t, text, ref = CLAIMS[i]
+    CLAIMS[i] = (t, text + " Added with the seventh, partial round (DESIGN.md §10.10): " + extra, ref)
+
+more7("C02", "an element of the signature kept under an input-chosen key does not replace an earlier one (A.keyed-once); unknown attributes are kept (X2.unknown).")
+more7("C04", "A.keyed-once; X2.unknown.")
+more7("C09", "a database never takes over the other database's slice (K10.share-db); where the normaliser finds no PEM block it hands back exactly its input (K8.exact).")
+more7("C11", "F16.stateless over every exported method of the stores; every successful return of the exported writers lies behind the file write (F17.always-write).")
+more7("C12", "F16.stateless over every exported method of the stores (typed getters and WriteSignedUpdate included); F17.always-write.")
+more7("C13", "a slice bound or index computed from bytes of an input slice is compared with the length it bounds (T13.bytes); a decoding loop does not walk the collection it is growing (T14.quadratic).")
+more7("C14", "T13.bytes, T14.quadratic over the variable decoders.")
+more7("C16", "with an optional element absent the parser still succeeds (X1.absent); A.keyed-once.")
